@@ -579,6 +579,12 @@ pub(crate) fn unlink_output(f: &Path) -> std::io::Result<()> {
     }
 }
 
+/// Reports whether `f` itself is a directory. A symbolic link to a directory is not:
+/// it is a file somebody made, whatever it points to.
+pub(crate) fn is_dir_nofollow(f: &Path) -> bool {
+    f.symlink_metadata().map_or(false, |m| m.is_dir())
+}
+
 /// Make a path absolute if it isn't already.
 pub fn abs_path<'p, 'q, P, Q>(cwd: &'p P, path: &'q Q) -> Cow<'q, Path>
 where
